@@ -99,6 +99,9 @@ def store_n(node, k0, n, ctxs, rng, acked):
 def stepped_task(task, wdir, res):
     rng = random.Random(task["seed"])
     cfg = dict(task["cfg"])
+    # the passive-buffer set tracks max_inflight_passives rotated memtables before it starts pruning: queue more rotations than that
+    mip = rng.choice([1, 2, 3, 8])
+    cfg["max_inflight_passives"] = mip
     cap = cfg["fill_factor"] * cfg["event_per_zone"]
     P = task["point"]
     ctxs = ["c0", "c1", "c2"]
@@ -125,7 +128,9 @@ def stepped_task(task, wdir, res):
         # partly filled active memtable + further rotations queued behind the parked flush
         k = store_n(node, k, max(1, cap - 1), ctxs, rng, acked)
         do_reads(node, acked, ctxs, res, sig, witness, "parked_plus_active")
-        k = store_n(node, k, cap * rng.randint(2, 3) + 1, ctxs, rng, acked)
+        nrot = rng.randint(2, 3) if rng.random() < 0.5 else mip + rng.randint(1, 2)
+        k = store_n(node, k, cap * nrot + 1, ctxs, rng, acked)
+        res.add_set("queued_rotations_vs_tracked", f"{'above' if nrot + 1 > mip else 'within'}:{mip}")
         do_reads(node, acked, ctxs, res, sig, witness, "parked_with_queued_rotations")
         node.meta(f"disarmpoint {P}")
         node.meta(f"release {P}")
